@@ -252,6 +252,12 @@ def trie_shard(cname, hpi, dt, refrac_t, lock, adapt, T):
     ref = Ref(cname, hp, dt, refrac_t)
     letters, _ = alphabet(ref, hp)
     cfg = {"class": cname, "hp": hpi, "dt": dt, "refrac_t": refrac_t, "refrac_lock": lock, "adapt": adapt}
+    # state layout: voltage / refractory time carry the batch dimension, the (batch-reduced) adaptation does not
+    a0 = get_adapt(n, cname)
+    if tuple(n.voltage.shape) != (1, 2) or tuple(n.refrac.shape) != (1, 2) or (a0 is not None and (a0.ndim != 2 or a0.shape[0] != 2)):
+        tally.violation(f"state-layout:{cname}", cfg, f"voltage {tuple(n.voltage.shape)}, refrac {tuple(n.refrac.shape)}, adaptation "
+                        f"{None if a0 is None else tuple(a0.shape)} for shape (2,), batch 1 (adaptation is documented as shape x K, without the batch)")
+        return tally
     nL = len(letters)
     leaf_counter = [0]
     outcomes = set()
